@@ -238,6 +238,10 @@ func check(c *Case, want []string, o CaseObs) {
 	if len(o.Steps) != len(c.H) {
 		hx.Fatal("case %d: %d steps observed, %d expected", c.W.ID, len(o.Steps), len(c.H))
 	}
+	if o.AfterClose != "" {
+		rep.Violate(hx.Violation{Kind: "impl-violation", Signature: "C06:instance-survives-runtime-close:" + o.Engine,
+			What: "after the history, Runtime.CloseWithExitCode left instances open: " + o.AfterClose, Input: in(len(c.H))})
+	}
 	for i, so := range o.Steps {
 		st := c.H[i]
 		w := want[i]
